@@ -178,6 +178,7 @@ func init() {
 		budget := b(100, 900)
 		jobs := []vx.Job{
 			{Scenario: "mux.transfer", Params: vx.P("conns", "2", "streams", "1", "writes", "1,1"), Bound: b(2, 3), Weight: 5},
+			{Scenario: "mux.transfer", Params: vx.P("conns", "2", "streams", "1", "writes", "1,1", "crosscheck", "1"), Bound: 1, Weight: 9},
 			{Scenario: "mux.transfer", Params: vx.P("conns", "2", "streams", "1", "writes", "9", "rbuf", "3"), Bound: b(2, 3), Weight: 9},
 			{Scenario: "mux.transfer", Params: vx.P("conns", "3", "streams", "1", "writes", "4,4,4"), Bound: b(1, 2), Weight: 9},
 			{Scenario: "mux.transfer", Params: vx.P("conns", "2", "streams", "1", "writes", "5", "swrites", "5", "both", "1"), Bound: b(1, 2), Weight: 9},
